@@ -750,3 +750,238 @@ def keep_first_or_error(ctx, rid):
                     writers.append((cshort(b["path"]), cshort(n["callee"])))
     ctx.expect(writers == [("TypeGenerator::generate_types_mod", "BTreeMap::entry")], rid, "keep-first/who-may-write", fn["sp"],
                "the per-module type map is mutated only through that entry() call", "writers of ModuleIR.types: " + str(writers))
+
+
+# ----------------------------------------------------------- C02 / C05 / C17 ----
+def definition_predicate(ctx, rid):
+    """K5+K14: a definition is emitted iff not substituted, namespace non-empty and Composite|Variant; placed in the
+    module chain of its namespace under its full path"""
+    fn = gen_mod_fn(ctx, rid)
+    if fn is None:
+        return
+    N = _norm(ctx, fn)
+    lp = definition_loop(ctx, rid, fn)
+    if lp is None:
+        return
+    loop, pat, body = lp
+    root = None
+    for lid, (origin, path, p) in N.defs.items():
+        if peel(p.get("ty", "")).endswith("module_ir::ModuleIR") and origin[0] == "let" and p.get("mut"):
+            root = lid
+    syms = {root: "ROOT"} if root is not None else {}
+    t = show(N.term(body, syms), 10 ** 6)
+    E = "elem(P0.type_registry.types)"
+    FLAT = "DerivesRegistry::flatten_recursive_derives(P0.settings.derives,P0.type_registry)?"
+    IR = "TypeGenerator::create_type_ir(P0,%s.ty,%s)?" % (E, FLAT)
+    exp = ("early{TypeSubstitutes::contains(P0.settings.substitutes,%s.ty.path.segments)=>continue;slice::is_empty(Path::namespace(%s.ty.path))=>continue}"
+           "if(let v1::Some($)=%s){{match(BTreeMap::entry(ModuleIR::get_or_insert_submodule(ROOT,Path::namespace(%s.ty.path)).types,%s.ty.path)){%s}}}else{'()'}") % (E, E, IR, E, E, ANY)
+    expect_term(ctx, rid, "define/predicate-and-placement", site(loop), t, exp,
+                "an item is defined iff the path is not substituted, has a namespace (>= 2 segments) and the definition is a struct/enum; "
+                "it is placed in root.get_or_insert_submodule(namespace) under its full path")
+    if root is not None:
+        rt = N.local_term(root)
+        init = rt[2] if rt[0] == "mut" else rt
+        expect_term(ctx, rid, "define/root-module", fn["sp"], init, "ModuleIR::new(P0.settings.types_mod_ident,P0.settings.types_mod_ident)",
+                    "root module is named by, and refers to, the settings' root ident")
+    # referrer side: >= 2 segments -> generated path (C01.23), single segment -> prelude, substituted -> substitute (C07.2)
+    sub = q.fn1(ctx.P, "ModuleIR::get_or_insert_submodule", "scale_typegen")
+    if sub is None:
+        ctx.bad(rid, "missing-anchor/get_or_insert_submodule", "", "get_or_insert_submodule not found")
+    else:
+        exp_s = ("early{slice::is_empty(P1)=>return P0}ModuleIR::get_or_insert_submodule(Entry::or_insert_with(BTreeMap::entry(P0.children,Ident::new(P1['0'],Span::call_site())),"
+                 "|0|{ModuleIR::new(Ident::new(P1['0'],Span::call_site()),P0.root_mod)}),P1[ops::RangeFrom{start:'1'}])")
+        expect_term(ctx, rid, "define/submodule-chain", sub["sp"], _norm(ctx, sub).term(sub["body"]), exp_s,
+                    "one nested module per namespace segment, created on demand with the parent's root ident; recursion on the remaining segments")
+
+
+def type_params_decl(ctx, rid):
+    """K4: parameters numbered `_i` by declared position (enumerate BEFORE skipping), unused := all, decl `<_0, _1>` in order"""
+    fn = q.fn1(ctx.P, "TypeParameters::from_scale_info", "scale_typegen")
+    if fn is None:
+        ctx.bad(rid, "missing-anchor/from_scale_info", "", "TypeParameters::from_scale_info not found")
+        return
+    t = _norm(ctx, fn).term(fn["body"])
+    P_ = ("Iterator::collect(Iterator::filter_map(Iterator::enumerate(P0),|1|{Option::map(C1_0.1.ty,|1|{type_path::TypeParameter{concrete_type_id:C2_0.id,"
+          "name:format_ident(F[_{__private::IdentFragmentAdapter(C1_0.0)}]),original_name:C1_0.1.name}})}))")
+    ok = t[0] == "struct"
+    if not ok:
+        ctx.bad(rid, "params/result", fn["sp"], "from_scale_info does not return a TypeParameters literal: " + show(t)[:200])
+        return
+    expect_term(ctx, rid, "params/numbering", fn["sp"], t[3]["params"], P_,
+                "iter -> enumerate -> filter_map: position taken before skipping; name `_<position>`; concrete id and original name copied")
+    expect_term(ctx, rid, "params/unused-init", fn["sp"], t[3]["unused"], "Iterator::collect(%s)" % P_, "initially every declared parameter counts as unused")
+    tt = [b for b in q.fn_by_suffix(ctx.P, "quote::ToTokens>::to_tokens", "scale_typegen") if "TypeParameters as" in b["path"]]
+    if len(tt) == 1:
+        expect_term(ctx, rid, "params/decl-tokens", tt[0]["sp"], _norm(ctx, tt[0]).term(tt[0]["body"]),
+                    "if(Not(Vec::is_empty(P0.params))){Extend::extend(P1,T[< #( #0 ),* >](P0.params))}else{'()'}", "`<_0, _1, ..>` over params in declaration order; nothing when empty")
+    else:
+        ctx.bad(rid, "missing-anchor/TypeParameters::to_tokens", "", "impl ToTokens for TypeParameters not found")
+    mu = q.fn1(ctx.P, "TypeParameters::mark_used", "scale_typegen")
+    if mu is not None:
+        expect_term(ctx, rid, "params/mark-used", mu["sp"], _norm(ctx, mu).term(mu["body"]), "{BTreeSet::remove(P0.unused,P1)}", "mark_used removes exactly that parameter from the unused set")
+    else:
+        ctx.bad(rid, "missing-anchor/mark_used", "", "mark_used not found")
+
+
+def phantom_data(ctx, rid):
+    """K4: marker type names exactly the unused set: None iff empty; one -> PhantomData<p>; several -> PhantomData<(p, q, ..)>"""
+    fn = q.fn1(ctx.P, "TypeParameters::unused_params_phantom_data", "scale_typegen")
+    if fn is None:
+        ctx.bad(rid, "missing-anchor/unused_params_phantom_data", "", "unused_params_phantom_data not found")
+        return
+    t = show(_norm(ctx, fn).term(fn["body"]), 10 ** 5)
+    U_OLD = "BTreeSet::iter(P0.unused)"
+    U_NEW = "Iterator::filter(P0.params,|1|{BTreeSet::contains(P0.unused,C1_0)})"
+    exps = []
+    for U in (U_NEW, U_OLD):
+        exps.append("early{BTreeSet::is_empty(P0.unused)=>return v1::None}Some(T[:: core :: marker :: PhantomData < #0 >](if((BTreeSet::len(P0.unused)=='1')){T[#0](Option::expect(Iterator::next(%s)))}else{T[( #( #0 ),* )](%s)}))" % (U, U))
+        exps.append("early{BTreeSet::is_empty(P0.unused)=>return v1::None}Some(T[:: core :: marker :: PhantomData < #0 >](if((BTreeSet::len(P0.unused)=='1')){T[#0](Option::expect(Iterator::next(mut[%s;.Iterator::next() if (BTreeSet::len(P0.unused)=='1')])))}else{T[( #( #0 ),* )](mut[%s;.Iterator::next() if (BTreeSet::len(P0.unused)=='1')])}))" % (U, U))
+    expect_term(ctx, rid, "phantom-data", fn["sp"], t, exps,
+                "None iff no unused parameter; exactly the unused parameters inside ::core::marker::PhantomData<..> (tuple when several)")
+
+
+def parent_params_visitor(ctx, rid):
+    """K2: the used-parameter collector visits every child of all 7 TypePathType variants"""
+    hits = [(b, ms) for b, ms in q.fns_with_match_on(ctx.P, is_tpt, GEN) if any("BTreeSet<typegen::type_path::TypeParameter" in t for t in b.get("inputs", []))]
+    fn = q.anchor_fn(ctx, rid, "used-parameter collector (match on TypePathType, takes &mut BTreeSet<TypeParameter>)", hits)
+    if fn is None:
+        return
+    b, ms = fn
+    t = show(_norm(ctx, b).term(b["body"]), 10 ** 5)
+    R = "TypePath::parent_type_params_recurse"
+    exp = ("match(P0){TypePathType::Path{params:$}=>for(P0@TypePathType::Path.params){%s(elem(P0@TypePathType::Path.params),P1)};"
+           "TypePathType::Vec{of:$}=>%s(P0@TypePathType::Vec.of,P1);TypePathType::Array{of:$}=>%s(P0@TypePathType::Array.of,P1);"
+           "TypePathType::Tuple{elements:$}=>for(P0@TypePathType::Tuple.elements){%s(elem(P0@TypePathType::Tuple.elements),P1)};"
+           "TypePathType::Primitive{}=>();TypePathType::Compact{inner:$}=>%s(P0@TypePathType::Compact.inner,P1);"
+           "TypePathType::BitVec{bit_order_type:$,bit_store_type:$}=>{%s(P0@TypePathType::BitVec.bit_order_type,P1);%s(P0@TypePathType::BitVec.bit_store_type,P1)}}") % ((R,) * 7)
+    alt = exp.replace("{%s(P0@TypePathType::BitVec.bit_order_type,P1);%s(P0@TypePathType::BitVec.bit_store_type,P1)}" % (R, R),
+                      "{%s(P0@TypePathType::BitVec.bit_store_type,P1);%s(P0@TypePathType::BitVec.bit_order_type,P1)}" % (R, R))
+    expect_term(ctx, rid, "parent-params/visitor", b["sp"], t, [exp, alt], "every TypePath child of every variant is visited (Path.params, Vec.of, Array.of, Tuple.elements, Compact.inner, BitVec store+order)")
+    rec = q.fn1(ctx.P, "TypePath::parent_type_params_recurse", "scale_typegen")
+    if rec is not None:
+        expect_term(ctx, rid, "parent-params/leaf", rec["sp"], _norm(ctx, rec).term(rec["body"]),
+                    "match(P0.0){TypePathInner::Parameter($)=>{BTreeSet::insert(P1,P0.0@TypePathInner::Parameter.0)};TypePathInner::Type($)=>TypePathType::parent_type_params(P0.0@TypePathInner::Type.0,P1)}",
+                    "a parameter leaf is inserted into the accumulator; concrete types recurse")
+    top = q.fn1(ctx.P, "TypePath::parent_type_params", "scale_typegen")
+    if top is not None:
+        expect_term(ctx, rid, "parent-params/entry", top["sp"], _norm(ctx, top).term(top["body"]), "mut[BTreeSet::new();TypePath::parent_type_params_recurse(P0,&self)]",
+                    "starts from an empty set")
+
+
+def param_match_predicate(ctx, rid):
+    """K4: a reference becomes parameter p iff p.concrete_type_id == id && (name absent || p.original_name == name); first match"""
+    a = resolver_fn(ctx, rid)
+    if a is None:
+        return
+    fn, m = a
+    t = _norm(ctx, fn).term(fn["body"])
+    i_id = q.param_index(fn, lambda t: t == "u32")
+    i_par = q.param_index(fn, lambda t: "TypeParameter]" in t)
+    i_name = q.param_index(fn, lambda t: t.startswith("std::option::Option<&str"))
+    if t[0] != "early" or not t[1]:
+        ctx.bad(rid, "param-match/first-statement", fn["sp"], "the resolver does not start with the parent-parameter match")
+        return
+    c, v = t[1][0]
+    FIND = "Iterator::find(P%d,|1|{((C1_0.concrete_type_id==P%d)&&Option::is_none_or(P%d,|1|{(C1_0.original_name==C2_0)}))})" % (i_par, i_id, i_name)
+    expect_term(ctx, rid, "param-match/predicate", fn["sp"], c, "let v1::Some($)=" + FIND,
+                "first parent parameter (declaration order) with the same concrete id and, when a recorded name is given, the same original name")
+    expect_term(ctx, rid, "param-match/result", fn["sp"], v, "return Ok(TypePath::from_parameter(%s@v1::Some.0))" % FIND, "the reference is rendered as that parameter")
+
+
+def id_opacity(ctx, rid, crates=("scale_typegen", "scale_typegen_description")):
+    """K9: type ids never reach ordering comparisons, arithmetic, tokens, or ordered iteration that reaches output"""
+    P = ctx.P
+    ID_RX = __import__("re").compile(r"(\.id\b|concrete_type_id|\.ty_id|type_id\b)")
+    n_ops = n_tpl = 0
+    for c, b in P.all_bodies(crates):
+        if "body" not in b or q.derived(b):
+            continue
+        N = None
+        for n in walk(b["body"]):
+            k = n.get("k")
+            if k == "Binary" and n["op"] in ("<", ">", "<=", ">=", "+", "-", "*", "/", "%", "^", "<<", ">>", "&", "|"):
+                lt, rt = n["l"].get("ty"), n["r"].get("ty")
+                if lt == "u32" or rt == "u32":
+                    N = N or _norm(ctx, b)
+                    n_ops += 1
+                    ts = show(N.term(n))
+                    if ID_RX.search(ts):
+                        ctx.bad(rid, "id-opacity/arith-or-order/%s/%s" % (cshort(b["path"]), n["op"]), n["sp"],
+                                "a type id takes part in `%s` (%s): output would depend on the numbering of the registry" % (n["op"], ts[:160]))
+            elif k == "MethodCall" and cshort(n.get("callee", "")) in ("Ord::cmp", "PartialOrd::partial_cmp", "Ord::max", "Ord::min", "slice::sort_by_key", "Iterator::max_by_key", "Iterator::min_by_key"):
+                N = N or _norm(ctx, b)
+                ts = show(N.term(n))
+                if ID_RX.search(ts) and (n["recv"].get("ty") in ("u32", "&u32") or "sort_by_key" in ts or "_by_key" in ts):
+                    ctx.bad(rid, "id-opacity/cmp/%s" % cshort(b["path"]), n["sp"], "type ids are compared for order: %s" % ts[:160])
+        # ids in tokens
+        for node, items, kind, parent in T.find_templates(b["body"]):
+            N = N or _norm(ctx, b)
+            for e, info, in_rep in T.interps(items):
+                n_tpl += 1
+                ts = show(N.term(e))
+                ty = peel(e.get("ty", ""))
+                if ty in ("u32", "usize", "u64") and ID_RX.search(ts):
+                    ctx.bad(rid, "id-opacity/token/%s" % cshort(b["path"]), node["sp"], "a type id is interpolated into generated tokens: %s" % ts[:160])
+        for n in walk(b["body"]):
+            if n.get("k") == "Call" and n.get("callee") == "quote::__private::mk_ident":
+                N = N or _norm(ctx, b)
+                ts = show(N.term(n))
+                if ID_RX.search(ts):
+                    ctx.bad(rid, "id-opacity/ident/%s" % cshort(b["path"]), n["sp"], "an identifier is built from a type id: %s" % ts[:200])
+    ctx.ok(rid, "id-opacity/scan", "", "scanned %d integer operators and %d template interpolations: no type id in arithmetic, ordering or tokens" % (n_ops, n_tpl))
+    # ordered containers keyed by id-bearing values: iteration must not reach output
+    id_keyed = ("std::collections::BTreeSet<typegen::type_path::TypeParameter", "std::collections::BTreeSet<u32", "std::collections::BTreeMap<u32")
+    from . import k8
+    n_it = 0
+    for c, b in P.all_bodies(crates):
+        if "body" not in b or q.derived(b):
+            continue
+        from .core.ir import walk_with_parents
+        for n, parents in walk_with_parents(b["body"]):
+            if n.get("k") == "MethodCall" and n["name"] in k8.ITER_METHODS | {"first", "last", "pop_first", "pop_last", "range"}:
+                rt = peel(n["recv"].get("adj") or n["recv"].get("ty", ""))
+                if rt.startswith(id_keyed):
+                    n_it += 1
+                    s = k8.Site(b, n, "iter", cshort(n.get("callee", n["name"])), "BTreeSet<id-bearing>", parents)
+                    cm = k8.commutative_loop(s)
+                    key = "id-ordered-iteration/%s/%s" % (cshort(b["path"]), s.callee)
+                    if cm is not None and cm["ok"]:
+                        ctx.ok(rid, key, n["sp"], "iteration in id order feeds only commutative updates (%s)" % ", ".join(cm["updates"]))
+                    else:
+                        ctx.bad(rid, key, n["sp"], "a set ordered by concrete type id (TypeParameter derives Ord with concrete_type_id first) is iterated and the order can reach the output: "
+                                "permuting the registry changes the emitted tokens")
+            elif n.get("k") == "Call" and n.get("callee", "").endswith("IntoIterator::into_iter"):
+                rt = peel(n["args"][0].get("ty", ""))
+                if rt.startswith(id_keyed):
+                    n_it += 1
+                    s = k8.Site(b, n, "iter-arg", "IntoIterator::into_iter", "BTreeSet<id-bearing>", parents)
+                    cm = k8.commutative_loop(s)
+                    key = "id-ordered-iteration/%s/for" % cshort(b["path"])
+                    if cm is not None and cm["ok"]:
+                        ctx.ok(rid, key, n["sp"], "for-loop in id order performs only commutative updates (%s)" % ", ".join(cm["updates"]))
+                    else:
+                        ctx.bad(rid, key, n["sp"], "for-loop over a set ordered by concrete type id with an order-dependent body")
+    ctx.count("iterations over id-ordered containers", n_it, 1)
+
+
+def definition_loop_locality(ctx, rid):
+    """K8-style: the only state carried between registry entries in the definition loop is the path-keyed module map"""
+    fn = gen_mod_fn(ctx, rid)
+    if fn is None:
+        return
+    lp = definition_loop(ctx, rid, fn)
+    if lp is None:
+        return
+    loop, pat, body = lp
+    from . import k8
+    N = _norm(ctx, fn)
+    ws = k8.loop_writes(body, None)
+    outer = set()
+    for kind, callee, lid, node, inner in ws:
+        if inner:
+            continue
+        rec = N.defs.get(lid)
+        outer.add((peel(rec[2].get("ty", "")) if rec else "?", callee))
+    ok = all(t.endswith("module_ir::ModuleIR") for t, _c in outer)
+    ctx.expect(ok and outer, rid, "loop-locality", site(loop), "entries communicate only through the path-keyed module map (%s)" % sorted(c for _t, c in outer),
+               "state carried across registry entries: %s" % sorted(outer))
